@@ -75,6 +75,12 @@ def fault_variants(prog: list[dict[str, Any]], rng: random.Random):  # noqa: ANN
             p = copy.deepcopy(base)
             blocks_of(p)[bi]["exit"] = {"kind": ex}
             yield p, {"block": blk["name"], "kind": blk["kind"], "fault": "body-exception", "exit": ex}
+            if blk["kind"] == "ascope" and ex in ("return", "raise-exc", "cancel-self"):
+                # the scope's only resource keeps a haiway block of its own open while it lives; that must stay the resource's business
+                p = copy.deepcopy(base)
+                blocks_of(p)[bi]["exit"] = {"kind": ex}
+                blocks_of(p)[bi]["disposables"] = [{"yield": [], "enter": "ok", "exit": "ok", "hold": True}, {"yield": [], "enter": "gate", "exit": "ok", "hold": True}][: 1 if bi % 2 == 0 else 2]
+                yield p, {"block": blk["name"], "kind": blk["kind"], "fault": "body-exception", "exit": ex, "resource_holds_block": True}
         if blk["kind"] != "ascope":
             continue
         # fault-free disposables, one of which claims to have handled the exception (its __aexit__ returns True): the body's
